@@ -72,6 +72,7 @@ NEG = [
     ("Lifecycle", "MC_Lifecycle_neg_noforce", "LastSetupWins"),
     ("Lifecycle", "MC_Lifecycle_neg_reinit", "InitOnce"),
     ("Lifecycle", "MC_Lifecycle_neg_flagfirst", None),
+    ("Cli", "MC_Cli_neg_dry", "DryRunIsPure"),
     ("Column", "MC_Column_neg_previous", "InLayer"),
     ("Column", "MC_Column_neg_dz", "InLayer"),
     ("Column", "MC_Column_neg_top", "TopFromTopNode"),
@@ -303,7 +304,7 @@ def faithful():
 
 COVER = [("MCSolver", "MC_Levels_quick"), ("MCSolver", "MC_Shape_quick"), ("Config", "MC_Met"), ("Config", "MC_Defaults"), ("Cache", "MC_Cache"),
          ("Cache", "MC_Cache_sim"), ("Runtime", "MC_Runtime_quick"), ("Drivers", "MC_Drivers_quick"), ("NetcdfIO", "MC_Netcdf"), ("NetcdfFiles", "MC_NetcdfFiles"),
-         ("KMTypes", "MC_KMTypes_z0"), ("KMGrid", "MC_KMGrid_quick"), ("KMZ0", "MC_KMZ0_quick"), ("Profiles", "MC_Profiles_quick"), ("Geo", "MC_Geo"), ("Column", "MC_Column"), ("Lifecycle", "MC_Lifecycle")]
+         ("KMTypes", "MC_KMTypes_z0"), ("KMGrid", "MC_KMGrid_quick"), ("KMZ0", "MC_KMZ0_quick"), ("Profiles", "MC_Profiles_quick"), ("Geo", "MC_Geo"), ("Column", "MC_Column"), ("Lifecycle", "MC_Lifecycle"), ("Cli", "MC_Cli")]
 SIMULATED = {"MC_Cache_sim": "num=40"}       # configurations explored by simulation
 
 
